@@ -6,7 +6,8 @@ Two concrete witnesses on `klaecLP` (`kLeastAbsErrorsCycles`), both replayed on 
 the check (`known_findings.json`: `C10-cyclic-cap-uses-ignored-flow`, `C10-walk-product-bits-from-wmax`):
 
 * `klaec_ignored_flow_matters`: two inputs that differ only in the flow value of an *ignored* edge
-  have different LPs (the repetition cap of that edge, `compute_edge_max_reachable_value`, reads it) —
+  have different LPs (the repetition cap of that edge, the floor of `compute_edge_max_reachable_value`,
+  reads it: `floor(3/2) = 1` against `floor(7/2) = 3`) —
   the analogue of `ignored_flow_irrelevant` fails for the cyclic encoder.
 * `klaec_infeasible_after_ignoring`: after ignoring the only edge of positive flow, `w_max = 0`, the
   integer × continuous product helper gets 0 bits and forces the multiplicity of every non-ignored
@@ -31,8 +32,10 @@ def winp (q : Rat) : WalkInput :=
 def capOf (lp : LP) (e : Edge) : Option (Option Rat) :=
   (lp.cols.find? (fun c => c.v = edgeVar e 0)).map (·.ub)
 
-theorem cap_small : capOf (klaecLP (winp (3/2))) ("h", "hc") = some (some (3/2)) := by decide +kernel
-theorem cap_large : capOf (klaecLP (winp (7/2))) ("h", "hc") = some (some (7/2)) := by decide +kernel
+/-- `floor(3/2)` (the caps are floored since fix fcfd0b0) -/
+theorem cap_small : capOf (klaecLP (winp (3/2))) ("h", "hc") = some (some 1) := by decide +kernel
+/-- `floor(7/2)` -/
+theorem cap_large : capOf (klaecLP (winp (7/2))) ("h", "hc") = some (some 3) := by decide +kernel
 
 /-- the two inputs agree on every edge that is not ignored -/
 theorem agree_off_ignored : ∀ e ∈ (winp (3/2)).activeEdges true,
